@@ -41,6 +41,9 @@ pub fn check(man: &Value, data: &[u8]) -> Value {
         Some(pts)
     };
     let gid_of: HashMap<&str, u16> = order.iter().enumerate().map(|(i, n)| (n.as_str(), i as u16)).collect();
+    let hvar = font.hvar().ok();
+    let hvar_ivs = hvar.as_ref().and_then(|h| h.item_variation_store().ok()).and_then(|s| super::vf::Ivs::new(&s).ok());
+    let mut advance_checked: std::collections::HashSet<(u16, String)> = Default::default();
     let rules = man["rules"]["rules"].as_array().cloned().unwrap_or_default();
     let tag = if man["rules"]["processing"].as_str() == Some("last") { "rclt" } else { "rvrn" };
     // source boxes in normalized space: rule -> condition sets -> per axis (lo, hi)
@@ -191,6 +194,39 @@ pub fn check(man: &Value, data: &[u8]) -> Value {
                         have.sort();
                         ok = Some(have) == layer_points(&exp);
                         *stats.entry("bracket_substitutes_compared").or_default() += 1.0;
+                    }
+                    if ok && advance_checked.insert((buf[0], exp.clone())) {
+                        // the generated glyph's advance at every master is the bracket layer's own width there (C04), also on a
+                        // master that links its metrics to another one: the link redirects master layers only
+                        let gid = buf[0] as u32;
+                        let adv0 = font.hmtx().ok().and_then(|h| h.advance(write_fonts::read::types::GlyphId::new(gid))).unwrap_or(0) as f64;
+                        let alt = man["glyphs"].as_array().and_then(|gs| gs.iter().find(|g| g["name"].as_str() == Some(exp.as_str())));
+                        for m in man["masters"].as_array().cloned().unwrap_or_default() {
+                            if !m["layer"].is_null() {
+                                continue;
+                            }
+                            let Some(w) = alt.and_then(|g| g["layers"].get(m["name"].as_str().unwrap_or(""))).map(|l| f(&l["width"])) else { continue };
+                            let coords: Vec<f64> = axes.iter().map(|a| q14(a.normalize_design(f(&m["design_loc"][&a.tag])))).collect();
+                            let mut adv = adv0;
+                            if let Some(h) = &hvar {
+                                if let Some(ivs) = &hvar_ivs {
+                                    let (o, i) = match h.advance_width_mapping() {
+                                        Some(Ok(map)) => super::vf::map_get(&map, gid).unwrap_or((0xFFFF, 0xFFFF)),
+                                        _ => (0, gid as usize),
+                                    };
+                                    if let Some((d, _)) = ivs.delta(o, i, &coords) {
+                                        adv += d;
+                                    }
+                                }
+                            }
+                            *stats.entry("bracket_advances_compared").or_default() += 1.0;
+                            if man["link_metrics"]["master"] == m["name"] {
+                                *stats.entry("bracket_advances_on_linking_master").or_default() += 1.0;
+                            }
+                            if (adv - super::src::ot_round(w)).abs() > 1.0 + 1e-6 && violations.len() < 12 {
+                                violations.push(format!("glyph '{got}' (the bracket layer of '{name}' drawn like '{exp}') at master {}: hmtx+HVAR advance {adv} but that layer's width is {w}", m["name"]));
+                            }
+                        }
                     }
                     if !ok && violations.len() < 12 {
                         violations.push(format!("at {p:?} under {script} ({tag}): glyph '{name}' becomes '{got}', which is not drawn like '{exp}' (the bracket layer that applies there; applicable rules {applicable:?})"));
